@@ -22,7 +22,6 @@ const (
 	fRawTab   = "C15-raw-tab-in-string-literal-invalid-json"
 	fBlockQ   = "C15-block-string-edge-quote-lost"
 	fBlockBs  = "C15-block-string-backslash-before-escaped-triple-quote-rejected"
-	fNoVarsNl = "C15-omitted-variable-in-object-literal-becomes-null-without-variables-object"
 )
 
 var reEdgeQuote = regexp.MustCompile(`^[ \t\r\n\\]*"|"[ \t\r\n\\]*$`)
@@ -106,27 +105,6 @@ func eachArgument(c *Case, vars *ir.Value, f func(t *ir.Type, v *ir.Value) bool)
 		}
 		if f(c.Schema.Echo(fu.Echo).Arg.T(), substitute(c, lit, vars)) {
 			return true
-		}
-	}
-	return false
-}
-
-// valuelessVarInsideLiteralWithoutVariablesObject: the request carries no variables object and
-// a variable without a runtime value is used inside (not as the whole of) an argument literal.
-func valuelessVarInsideLiteralWithoutVariablesObject(c *Case) bool {
-	if c.VarsForm == "object" {
-		return false
-	}
-	for _, d := range c.Decls {
-		for _, fu := range c.Fields {
-			if fu.Arg == "$"+d.Name {
-				continue
-			}
-			for _, t := range tokens(fu.Arg) {
-				if t.Kind == ir.TName && t.Text == d.Name {
-					return true
-				}
-			}
 		}
 	}
 	return false
@@ -220,9 +198,6 @@ var recognisers = []recogniser{
 	}},
 	{fBlockEsc, valueSites, func(c *Case, _ *ir.Value, msg string) bool {
 		return anyToken(c, func(t ir.Token) bool { return t.Kind == ir.TBlockString && strings.Contains(t.Text, `\"""`) })
-	}},
-	{fNoVarsNl, anySite, func(c *Case, vars *ir.Value, msg string) bool {
-		return valuelessVarInsideLiteralWithoutVariablesObject(c)
 	}},
 	{fNullDflt, anySite, func(c *Case, vars *ir.Value, msg string) bool { return omittedListVarWithNullDefault(c, vars) }},
 	{fVarDflt, anySite, func(c *Case, vars *ir.Value, msg string) bool { return omittedDefaultedVarInsideLiteral(c, vars) }},
